@@ -106,6 +106,25 @@ def parse_tla_tuple(line):
     return res
 
 
+def coverage_report(out):
+    """parse `tlc -coverage 1` output: actions never taken and sub-expressions never evaluated (vacuity check)"""
+    last = {}
+    zero = {}
+    for ln in out.splitlines():
+        m = re.match(r"^<(\w+) line (\d+), col \d+ to line \d+, col \d+ of module (\w+)>: (\d+)(?::(\d+))?\s*$", ln)
+        if m:
+            name, mod, a, b = m.group(1), m.group(3), int(m.group(4)), m.group(5)
+            if b is not None:                       # an action / Init line: distinct:total
+                last[(mod, name, m.group(2))] = int(b)
+            continue
+        m = re.match(r"^\s+\|*line (\d+), col (\d+) to line (\d+), col (\d+) of module (\w+): (\d+)", ln)
+        if m:
+            zero[(m.group(5), int(m.group(1)), int(m.group(2)))] = int(m.group(6))     # last report wins (coverage is printed repeatedly)
+    vac = sorted("%s!%s (line %s)" % (mod, name, line) for (mod, name, line), tot in last.items() if tot == 0)
+    zer = sorted("%s line %d col %d" % k for k, v in zero.items() if v == 0)
+    return vac, zer
+
+
 class Check:
     def __init__(self, pid, level="model_checking"):
         self.pid = pid
@@ -221,6 +240,7 @@ class Check:
 
     def stage_a(self, workdir, module, cfg=None, **kw):
         """model-check a configuration of the specification; a failure of an unchanged spec is infra (exit 2)"""
+        cover = kw.get("coverage")
         res = self.tlc(workdir, module, cfg, **kw)
         if res.rc == 124:
             raise Infra("stage A timed out: %s" % (cfg or module))
@@ -228,7 +248,15 @@ class Check:
             raise Infra("stage A failed for %s (spec-level problem, not a verdict about the code):\n%s" % (cfg or module, res.out[-3000:]))
         self.cov["states"] += res.distinct
         self.cov["transitions"] += res.generated
-        self.cov["stage_a"].append(dict(config=cfg or module, generated=res.generated, distinct=res.distinct, wall_s=round(res.wall, 1)))
+        rec = dict(config=cfg or module, generated=res.generated, distinct=res.distinct, wall_s=round(res.wall, 1))
+        if cover:
+            vac, zer = coverage_report(res.out)
+            rec["vacuous_actions"] = vac                  # an action never taken would mean a property never exercised
+            rec["never_evaluated_expressions"] = len(zer)
+            rec["never_evaluated_sample"] = zer[:8]
+            if vac:
+                self.note("stage A %s: actions never taken: %s" % (cfg or module, ", ".join(vac)))
+        self.cov["stage_a"].append(rec)
         return res
 
     # ------------------------------------------------------------------ trace validation
